@@ -56,6 +56,7 @@ func cleanupLike(name string) bool {
 type EFException struct {
 	Fn, Callee, Reason string
 	Tolerate           []string // if set: only these error predicates are tolerated; everything else stays fail-stop
+	DroppedOnly        bool     // applies only to a call whose error result is discarded
 }
 
 type EFConfig struct {
@@ -244,9 +245,9 @@ func errflowCone(c *Ctx, cfg *EFConfig) {
 				c.ok(cfg.Rule, construct+": fail-stop"+tolNote, c.pos(call), "no success return reachable after a failure of this call")
 				continue
 			}
-			if reason, ok := cfg.exception(name, callee); ok {
+			if ex := cfg.exc(name, callee); ex != nil && len(ex.Tolerate) == 0 && !ex.DroppedOnly {
 				usedExc[name+"|"+callee] = true
-				c.ok(cfg.Rule, construct+" [named exception]", c.pos(call), reason)
+				c.ok(cfg.Rule, construct+" [named exception]", c.pos(call), ex.Reason)
 				continue
 			}
 			o := out[0]
